@@ -1496,4 +1496,4 @@ mod tests {
 
 #[cfg(kani)]
 #[path = "/verif/harness/teos/responder.rs"]
-mod verif_harness;
+pub(crate) mod verif_harness;
